@@ -15,6 +15,8 @@ fn vocab() -> Vec<&'static str> {
         // unfinished counted repeats, closed comments, flag groups, free-spacing tails
         "\\k<-9223372036854775808>", "\\k<-9223372036854775807>", "\\g<-9223372036854775808>", "(?(<-9223372036854775808>)", "\\k<-18446744073709551616>",
         "{2", "{2 ", "(?#c)", "(?i:", "(?x: ", "# t", "\n", "{,2}", "{2,3", "(?<n>a)", "(?(<n>)", "(?'n'", "\\k'n'",
+        // escape and group heads cut off before their argument (they end the pattern when they come last): added after seeded/C06-20
+        "\\k", "\\g", "\\p", "\\P", "\\x", "\\u", "\\U", "\\k<", "\\k'", "\\g<", "\\g'", "\\p{", "\\x{1", "(?P", "(?P=", "(?<", "(?'",
     ]
 }
 
